@@ -1,3 +1,426 @@
-(* placeholder: theorems follow *)
-From CC Require Import Theory.Field Model.Network Model.Transformers.
-Example C16_model_runs : True. Proof. exact I. Qed.
+(* C16 — network simplifications are electrical identities.
+   Statements only; every proof is [exact <lemma>] (lemmas: Theory/Simplify.v, Theory/WellPosedCheck.v).
+   Model: Model/Transformers.v (mirror of Network/transformers.py).  The model is purely functional, so "the
+   input network is never modified" holds by construction: every operation returns a new [network] value.
+
+   Flows are indexed by branch identifier: [CircuitSpecId n phi ji] is [CircuitSpec n phi (fun b => ji (bid b))];
+   with pairwise distinct identifiers this is the same as branch-indexed flows (C16_flows_by_id). *)
+From Coq Require Import List Bool ZArith NArith.
+From CC Require Import Theory.Field Theory.Complex Theory.Labels Model.Network Model.Transformers Theory.Spec Theory.Mna
+  Theory.MnaComplete Theory.Api Theory.Simplify Theory.WellPosedCheck.
+Import ListNotations.
+
+Theorem C16_flows_by_id : forall (K : fops) (n : network K) (phi : label -> K) (j : branch K -> K),
+  NoDup (branch_ids n) -> CircuitSpec n phi j ->
+  CircuitSpecId n phi (jv n j) /\ (forall b, In b (branches n) -> jv n j (bid b) = j b).
+Proof. exact (fun K n phi j ND S => conj (spec_to_id K n phi j ND S) (fun b Hb => jv_In K n j b ND Hb)). Qed.
+Print Assumptions C16_flows_by_id.
+
+(* ====================== 1. only what the operation names changes ====================== *)
+
+(* remove_open_circuit_elements: exactly the branches that are not open circuits, untouched, in order *)
+Theorem C16_names_remove_open : forall (K : fops) (n n' : network K),
+  remove_open_circuit_elements n = Ok n' ->
+  branches n' = filter (fun b => negb (is_open_circuit (el b))) (branches n) /\ zero n' = zero n.
+Proof. exact remove_open_names. Qed.
+Print Assumptions C16_names_remove_open.
+
+(* remove_element id: the input minus the branch with that identifier; KeyError when there is none *)
+Theorem C16_names_remove_element : forall (K : fops) (KOK : fops_ok K) (n n' : network K) (id : label),
+  NoDup (branch_ids n) -> remove_element n id = Ok n' ->
+  In id (branch_ids n)
+  /\ branches n' = filter (fun a => negb (label_eqb (bid a) id)) (branches n) /\ zero n' = zero n.
+Proof. exact remove_element_names. Qed.
+Print Assumptions C16_names_remove_element.
+
+Theorem C16_names_remove_element_unknown : forall (K : fops) (n : network K) (id : label),
+  ~ In id (branch_ids n) -> remove_element n id = Err EKeyError.
+Proof. exact remove_element_unknown. Qed.
+Print Assumptions C16_names_remove_element_unknown.
+
+Theorem C16_names_switch_ground : forall (K : fops) (n n' : network K) (g : label),
+  switch_ground_node n g = Ok n' -> branches n' = branches n /\ zero n' = g.
+Proof. exact switch_ground_names. Qed.
+Print Assumptions C16_names_switch_ground.
+
+(* remove_short_circuit_elements: there is a node identification sigma such that the result is the input with
+   both node fields of every branch mapped by sigma (same element, same orientation, same order) minus the
+   branches whose two nodes were identified.  sigma fixes the reference node, merges only what the non-exempt
+   short circuits of the input force to coincide (every node map constant along each of them is constant along
+   sigma), merges the two nodes of every one of them, and no non-exempt short circuit is left. *)
+Theorem C16_names_remove_short : forall (K : fops) (n n' : network K) (keep : list (elem K)),
+  (forall b, In b (branches n) -> node1 b <> node2 b) ->
+  remove_short_circuit_elements n keep = Ok n' ->
+  exists sigma : label -> label,
+    branches n' = filter (fun b => negb (label_eqb (node1 b) (node2 b)))
+                         (map (fun b => Build_branch (sigma (node1 b)) (sigma (node2 b)) (el b)) (branches n))
+    /\ zero n' = zero n /\ sigma (zero n) = zero n
+    /\ (forall (X : Type) (f : label -> X),
+          (forall sc, In sc (branches n) -> is_target keep sc = true -> f (node1 sc) = f (node2 sc)) ->
+          forall l, f (sigma l) = f l)
+    /\ (forall sc, In sc (branches n) -> is_target keep sc = true -> sigma (node1 sc) = sigma (node2 sc))
+    /\ (forall b, In b (branches n') -> is_target keep b = false).
+Proof. exact remove_short_names. Qed.
+Print Assumptions C16_names_remove_short.
+
+(* what that shape means branch by branch *)
+Theorem C16_names_renamed_ids : forall (K : fops) (sigma : label -> label) (bs : list (branch K)),
+  subseq (map bid (filter nonloop (map (rename sigma) bs))) (map bid bs).
+Proof. exact renamed_ids_subseq. Qed.
+Print Assumptions C16_names_renamed_ids.
+Theorem C16_names_renamed_branch : forall (K : fops) (sigma : label -> label) (bs : list (branch K)) (b' : branch K),
+  In b' (filter nonloop (map (rename sigma) bs)) ->
+  exists b, In b bs /\ bid b' = bid b /\ el b' = el b /\ node1 b' = sigma (node1 b) /\ node2 b' = sigma (node2 b).
+Proof. exact renamed_In. Qed.
+Print Assumptions C16_names_renamed_branch.
+
+(* source stripping: position by position same nodes and identifier; a selected branch (not exempt, a source
+   of the kind) gets the element impedance(name, Z) resp. admittance(name, Y), every other one is identical *)
+Theorem C16_names_short_circuitify : forall (K : fops) (n n' : network K) (keep : list (elem K)),
+  short_circuitify_voltage_sources n keep = Ok n' ->
+  zero n' = zero n
+  /\ Forall2 (fun b b' => node1 b' = node1 b /\ node2 b' = node2 b /\ bid b' = bid b
+                /\ (if negb (in_keep (el b) keep) && is_voltage_source (el b)
+                    then el b' = impedance (bid b) (opt0 (eZ (el b))) else b' = b))
+             (branches n) (branches n').
+Proof. exact short_circuitify_names. Qed.
+Print Assumptions C16_names_short_circuitify.
+Theorem C16_names_open_circuitify : forall (K : fops) (n n' : network K) (keep : list (elem K)),
+  open_circuitify_current_sources n keep = Ok n' ->
+  zero n' = zero n
+  /\ Forall2 (fun b b' => node1 b' = node1 b /\ node2 b' = node2 b /\ bid b' = bid b
+                /\ (if negb (in_keep (el b) keep) && is_current_source (el b)
+                    then el b' = admittance (bid b) (opt0 (eY (el b))) else b' = b))
+             (branches n) (branches n').
+Proof. exact open_circuitify_names. Qed.
+Print Assumptions C16_names_open_circuitify.
+
+(* the replacement element has the same admittance (also "infinite") and is not a source any more *)
+Theorem C16_stripped_voltage_source : forall (K : fops) (KOK : fops_ok K) (e : elem K) (nm : label),
+  is_voltage_source e = true ->
+  eY (impedance nm (opt0 (eZ e))) = eY e /\ is_active (impedance nm (opt0 (eZ e))) = false.
+Proof. exact zero_in_voltage_passive. Qed.
+Print Assumptions C16_stripped_voltage_source.
+Theorem C16_stripped_current_source : forall (K : fops) (KOK : fops_ok K) (e : elem K) (nm : label),
+  is_current_source e = true ->
+  eY (admittance nm (opt0 (eY e))) = eY e /\ is_active (admittance nm (opt0 (eY e))) = false.
+Proof. exact zero_in_current_passive. Qed.
+Print Assumptions C16_stripped_current_source.
+
+(* the exemption list: membership is by value ... *)
+Theorem C16_keep_is_membership : forall (K : fops) (KOK : fops_ok K) (keep : list (elem K)) (e : elem K),
+  in_keep e keep = true <-> In e keep.
+Proof. exact in_keep_spec. Qed.
+Print Assumptions C16_keep_is_membership.
+(* ... an exempt element is selected by no operation ... *)
+Theorem C16_keep_exempt : forall (K : fops) (keep : list (elem K)) (b : branch K), in_keep (el b) keep = true ->
+  is_target keep b = false
+  /\ negb (in_keep (el b) keep) && is_voltage_source (el b) = false
+  /\ negb (in_keep (el b) keep) && is_current_source (el b) = false.
+Proof. exact keep_exempt. Qed.
+Print Assumptions C16_keep_exempt.
+(* ... is left identical by source stripping ... *)
+Theorem C16_keep_short_circuitify : forall (K : fops) (n n' : network K) (keep : list (elem K)),
+  short_circuitify_voltage_sources n keep = Ok n' ->
+  Forall2 (fun b b' => in_keep (el b) keep = true \/ is_voltage_source (el b) = false -> b' = b) (branches n) (branches n').
+Proof. exact short_circuitify_keep. Qed.
+Print Assumptions C16_keep_short_circuitify.
+Theorem C16_keep_open_circuitify : forall (K : fops) (n n' : network K) (keep : list (elem K)),
+  open_circuitify_current_sources n keep = Ok n' ->
+  Forall2 (fun b b' => in_keep (el b) keep = true \/ is_current_source (el b) = false -> b' = b) (branches n) (branches n').
+Proof. exact open_circuitify_keep. Qed.
+Print Assumptions C16_keep_open_circuitify.
+(* ... and the short circuit contracted in an iteration of the loop is never an exempt one (the identification
+   sigma of C16_names_remove_short is generated by the non-exempt ones only) *)
+Theorem C16_keep_never_contracted : forall (K : fops) (keep : list (elem K)) (bs : list (branch K)) (sc : branch K),
+  find (is_target keep) bs = Some sc -> In sc bs /\ is_short_circuit (el sc) = true /\ in_keep (el sc) keep = false.
+Proof. exact rsc_selected_not_exempt. Qed.
+Print Assumptions C16_keep_never_contracted.
+
+(* identifiers: a subsequence of the input's (equal for source stripping), also for the composed operation *)
+Theorem C16_ids_remove_short : forall (K : fops) (n n' : network K) (keep : list (elem K)),
+  remove_short_circuit_elements n keep = Ok n' -> subseq (branch_ids n') (branch_ids n) /\ zero n' = zero n.
+Proof. exact remove_short_ids. Qed.
+Print Assumptions C16_ids_remove_short.
+Theorem C16_ids_remove_open : forall (K : fops) (n n' : network K),
+  remove_open_circuit_elements n = Ok n' -> subseq (branch_ids n') (branch_ids n) /\ zero n' = zero n.
+Proof. exact remove_open_ids. Qed.
+Print Assumptions C16_ids_remove_open.
+Theorem C16_ids_short_circuitify : forall (K : fops) (n n' : network K) (keep : list (elem K)),
+  short_circuitify_voltage_sources n keep = Ok n' -> branch_ids n' = branch_ids n /\ zero n' = zero n.
+Proof. exact short_circuitify_ids. Qed.
+Print Assumptions C16_ids_short_circuitify.
+Theorem C16_ids_open_circuitify : forall (K : fops) (n n' : network K) (keep : list (elem K)),
+  open_circuitify_current_sources n keep = Ok n' -> branch_ids n' = branch_ids n /\ zero n' = zero n.
+Proof. exact open_circuitify_ids. Qed.
+Print Assumptions C16_ids_open_circuitify.
+Theorem C16_ids_passive_network : forall (K : fops) (n n' : network K) (keep : list (elem K)),
+  passive_network n keep = Ok n' -> subseq (branch_ids n') (branch_ids n) /\ zero n' = zero n.
+Proof. exact passive_network_ids. Qed.
+Print Assumptions C16_ids_passive_network.
+
+(* ====================== 2. removing open circuits ====================== *)
+(* [drop_open n] = the branches of n that are not open circuits, same reference node (= the result, C16_names_remove_open) *)
+Theorem C16_open_identity : forall (K : fops) (KOK : fops_ok K) (n : network K) (phi ji : label -> K),
+  CircuitSpecId n phi ji -> CircuitSpecId (drop_open n) phi ji.
+Proof. exact open_fwd. Qed.
+Print Assumptions C16_open_identity.
+
+(* conversely a solution of the reduced network, extended by 0 on the removed identifiers, solves n ... *)
+Theorem C16_open_identity_converse : forall (K : fops) (KOK : fops_ok K) (n : network K) (phi ji : label -> K),
+  NoDup (branch_ids n) -> CircuitSpecId (drop_open n) phi ji ->
+  CircuitSpecId n phi (fun id => if lmem id (open_ids n) then f0 K else ji id).
+Proof. exact open_bwd. Qed.
+Print Assumptions C16_open_identity_converse.
+(* ... and the extension changes nothing on a solution of n (its flow through an open circuit is 0) *)
+Theorem C16_open_flow_zero : forall (K : fops) (KOK : fops_ok K) (n : network K) (phi ji : label -> K) (b : branch K),
+  CircuitSpecId n phi ji -> In b (branches n) -> is_open_circuit (el b) = true -> ji (bid b) = f0 K.
+Proof. exact open_flow_zero. Qed.
+Print Assumptions C16_open_flow_zero.
+
+Theorem C16_open_wellposed : forall (K : fops) (KOK : fops_ok K) (n : network K),
+  NoDup (branch_ids n) -> WellPosed n -> WellPosed (drop_open n).
+Proof. exact open_wp_fwd. Qed.
+Print Assumptions C16_open_wellposed.
+(* a node touched by open circuits only disappears (its potential is undetermined in n): the converse holds
+   when every node keeps a branch that is not an open circuit *)
+Theorem C16_open_wellposed_converse : forall (K : fops) (KOK : fops_ok K) (n : network K),
+  NoDup (branch_ids n) -> (forall l, In l (node_labels n) -> In l (node_labels (drop_open n))) ->
+  WellPosed (drop_open n) -> WellPosed n.
+Proof. exact open_wp_bwd. Qed.
+Print Assumptions C16_open_wellposed_converse.
+
+Theorem C16_open_solution_agree : forall (K : fops) (KOK : fops_ok K) (n n' : network K) (x x' : list K),
+  wf n -> WellPosed n' -> remove_open_circuit_elements n = Ok n' -> solves n x -> solves n' x' ->
+  (forall l, In l (node_labels n') -> phi_of n x l = phi_of n' x' l)
+  /\ (forall b b', In b (branches n) -> In b' (branches n') -> bid b = bid b' -> flow_of n x b = flow_of n' x' b').
+Proof. exact open_solution_agree. Qed.
+Print Assumptions C16_open_solution_agree.
+
+Theorem C16_open_api_agree : forall (K : fops) (KOK : fops_ok K) (n n' : network K) (s s' : solution K),
+  (forall b, In b (branches n) -> node1 b <> node2 b) -> WellPosed n' ->
+  remove_open_circuit_elements n = Ok n' -> solve_network n = Ok s -> solve_network n' = Ok s' ->
+  (forall l, In l (node_labels n') -> get_potential s l = get_potential s' l)
+  /\ (forall b', In b' (branches n') ->
+        get_voltage s (bid b') = get_voltage s' (bid b') /\ get_current s (bid b') = get_current s' (bid b')
+        /\ get_power s (bid b') = get_power s' (bid b')).
+Proof. exact open_api_agree. Qed.
+Print Assumptions C16_open_api_agree.
+
+(* ====================== 3. contracting short circuits ====================== *)
+(* KCL after one contraction step (an absorbed into rn), for arbitrary flows *)
+Theorem C16_contract_kcl : forall (K : fops) (KOK : fops_ok K) (an rn : label) (bs : list (branch K)) (ji : label -> K) (i : label),
+  an <> rn ->
+  kcl_sum (contract an rn bs) (fun b => ji (bid b)) i
+  = if label_eqb i rn then fadd K (kcl_sum bs (fun b => ji (bid b)) an) (kcl_sum bs (fun b => ji (bid b)) rn)
+    else if label_eqb i an then f0 K else kcl_sum bs (fun b => ji (bid b)) i.
+Proof. exact kcl_contract. Qed.
+Print Assumptions C16_contract_kcl.
+
+(* one step: sc is an element with Z = 0 and V = 0 between an and rn (no further side condition) *)
+Theorem C16_contract_identity : forall (K : fops) (KOK : fops_ok K) (bs : list (branch K)) (z : label)
+  (phi ji : label -> K) (sc : branch K) (an rn : label),
+  In sc bs -> eY (el sc) = None -> opt0 (eV (el sc)) = f0 K ->
+  (an = node1 sc /\ rn = node2 sc) \/ (an = node2 sc /\ rn = node1 sc) ->
+  CircuitSpecId {| branches := bs; zero := z |} phi ji ->
+  CircuitSpecId {| branches := contract an rn bs; zero := z |} phi ji.
+Proof. exact contract_identity. Qed.
+Print Assumptions C16_contract_identity.
+
+(* the whole operation, any number of short circuits, chained or sharing nodes, any exemption list *)
+Theorem C16_short_identity : forall (K : fops) (KOK : fops_ok K) (n n' : network K) (keep : list (elem K))
+  (phi ji : label -> K),
+  CircuitSpecId n phi ji -> remove_short_circuit_elements n keep = Ok n' -> CircuitSpecId n' phi ji.
+Proof. exact short_identity. Qed.
+Print Assumptions C16_short_identity.
+
+Theorem C16_short_wf : forall (K : fops) (n n' : network K) (keep : list (elem K)),
+  wf n -> remove_short_circuit_elements n keep = Ok n' -> wf n'.
+Proof. exact remove_short_wf. Qed.
+Print Assumptions C16_short_wf.
+
+(* model level: the two solution vectors give every surviving node and branch the same values *)
+Theorem C16_short_solution_agree : forall (K : fops) (KOK : fops_ok K) (n n' : network K) (keep : list (elem K))
+  (x x' : list K),
+  wf n -> WellPosed n' -> remove_short_circuit_elements n keep = Ok n' -> solves n x -> solves n' x' ->
+  (forall l, In l (node_labels n') -> phi_of n x l = phi_of n' x' l)
+  /\ (forall b b', In b (branches n) -> In b' (branches n') -> bid b = bid b' -> flow_of n x b = flow_of n' x' b').
+Proof. exact short_solution_agree. Qed.
+Print Assumptions C16_short_solution_agree.
+
+(* API level: potentials of the surviving nodes, voltage/current/power of the surviving branches *)
+Theorem C16_short_api_agree : forall (K : fops) (KOK : fops_ok K) (n n' : network K) (keep : list (elem K))
+  (s s' : solution K),
+  (forall b, In b (branches n) -> node1 b <> node2 b) -> WellPosed n' ->
+  remove_short_circuit_elements n keep = Ok n' -> solve_network n = Ok s -> solve_network n' = Ok s' ->
+  (forall l, In l (node_labels n') -> get_potential s l = get_potential s' l)
+  /\ (forall b', In b' (branches n') ->
+        get_voltage s (bid b') = get_voltage s' (bid b') /\ get_current s (bid b') = get_current s' (bid b')
+        /\ get_power s (bid b') = get_power s' (bid b')).
+Proof. exact short_api_agree. Qed.
+Print Assumptions C16_short_api_agree.
+
+(* termination: a step removes at least the contracted short circuit, so more fuel than branches is enough
+   for the loop to stop because no non-exempt short circuit is left *)
+Theorem C16_contract_shorter : forall (K : fops) (an rn : label) (bs : list (branch K)) (sc : branch K),
+  In sc bs -> (an = node1 sc /\ rn = node2 sc) \/ (an = node2 sc /\ rn = node1 sc) ->
+  length (contract an rn bs) < length bs.
+Proof. exact contract_shorter. Qed.
+Print Assumptions C16_contract_shorter.
+Theorem C16_short_fuel_suffices : forall (K : fops) (fuel : nat) (z : label) (keep : list (elem K)) (bs : list (branch K)),
+  length bs < fuel -> forall b, In b (rsc_loop fuel z keep bs) -> is_target keep b = false.
+Proof. exact rsc_loop_no_target. Qed.
+Print Assumptions C16_short_fuel_suffices.
+Theorem C16_short_none_left : forall (K : fops) (n n' : network K) (keep : list (elem K)),
+  remove_short_circuit_elements n keep = Ok n' -> forall b, In b (branches n') -> is_target keep b = false.
+Proof. exact remove_short_none_left. Qed.
+Print Assumptions C16_short_none_left.
+
+(* ====================== 4. well-posedness is preserved by contraction ====================== *)
+(* one step; the converse direction of the identity is [contract_bwd] in Theory/Simplify.v: a solution of the
+   contracted list lifts to the original one (potential of an := that of rn, flow of the short circuit from KCL at an) *)
+Theorem C16_contract_wellposed : forall (K : fops) (KOK : fops_ok K) (bs : list (branch K)) (z : label) (sc : branch K)
+  (an rn : label),
+  NoDup (map bid bs) -> (forall b, In b bs -> node1 b <> node2 b) -> In sc bs -> eY (el sc) = None ->
+  (an = node1 sc /\ rn = node2 sc) \/ (an = node2 sc /\ rn = node1 sc) -> an <> z -> opt0 (eV (el sc)) = f0 K ->
+  WellPosed {| branches := bs; zero := z |} -> WellPosed {| branches := contract an rn bs; zero := z |}.
+Proof. exact contract_wp. Qed.
+Print Assumptions C16_contract_wellposed.
+
+Definition C16_wellposed_full : Prop := forall (K : fops) (KOK : fops_ok K) (n n' : network K) (keep : list (elem K)),
+  WellPosed n -> remove_short_circuit_elements n keep = Ok n' -> WellPosed n'.
+(* proved for well-formed inputs (distinct identifiers — enforced by the Python constructor — and no branch
+   from a node to itself), the standing assumption [wf] of the whole development *)
+Theorem C16_wellposed_partial : forall (K : fops) (KOK : fops_ok K) (n n' : network K) (keep : list (elem K)),
+  wf n -> WellPosed n -> remove_short_circuit_elements n keep = Ok n' -> WellPosed n'.
+Proof. exact remove_short_wp. Qed.
+Print Assumptions C16_wellposed_partial.
+
+(* ====================== 5. switching the reference node ====================== *)
+Theorem C16_switch_ground_identity : forall (K : fops) (KOK : fops_ok K) (n n' : network K) (g : label)
+  (phi ji : label -> K),
+  switch_ground_node n g = Ok n' -> CircuitSpecId n phi ji -> CircuitSpecId n' (fun l => fsub K (phi l) (phi g)) ji.
+Proof. exact switch_ground_identity. Qed.
+Print Assumptions C16_switch_ground_identity.
+Theorem C16_switch_ground_wellposed : forall (K : fops) (KOK : fops_ok K) (n n' : network K) (g : label),
+  switch_ground_node n g = Ok n' -> WellPosed n -> WellPosed n'.
+Proof. exact switch_ground_wp. Qed.
+Print Assumptions C16_switch_ground_wellposed.
+
+(* a boolean certificate of [wf] and [WellPosed] for concrete networks (used below) *)
+Theorem C16_wellposed_certificate : forall (K : fops) (KOK : fops_ok K) (n : network K),
+  wellposedb n = true -> wf n /\ WellPosed n.
+Proof. exact (fun K KOK n => wellposedb_ok KOK n). Qed.
+Print Assumptions C16_wellposed_certificate.
+
+(* ====================== non-vacuity ====================== *)
+Definition L (z : Z) : label := [Z.to_N z].              (* one-character label *)
+Definition Nm (a b : Z) : label := [Z.to_N a; Z.to_N b].  (* two-character label *)
+Definition r (a b : Z) : CQ := cq a 1 b 1.
+
+(* the tree of short circuits  S0: 2-0, S1: 1-2, S2: 3-2  (the former defect: the node pairs of S1, S2 go stale
+   after S0 is contracted), a source V1: 4-0, R1: 4-1, Z2: 3-5, R3: 5-0, a current source I1: 0-5, and R4: 1-3
+   which the contraction turns into a loop.  Nodes '0'..'5' are the code points 48..53. *)
+Definition ex_tree : network CQ :=
+  {| zero := L 48;
+     branches := [ Build_branch (L 52) (L 48) (voltage_source (Nm 86 49) (r 5 0) (r 0 0));
+                   Build_branch (L 52) (L 49) (resistor (Nm 82 49) (r 2 0));
+                   Build_branch (L 50) (L 48) (short_circuit (Nm 83 48));
+                   Build_branch (L 49) (L 50) (short_circuit (Nm 83 49));
+                   Build_branch (L 51) (L 50) (short_circuit (Nm 83 50));
+                   Build_branch (L 51) (L 53) (impedance (Nm 90 50) (r 3 4));
+                   Build_branch (L 53) (L 48) (resistor (Nm 82 51) (r 1 0));
+                   Build_branch (L 48) (L 53) (current_source (Nm 73 49) (r 1 0) (r 0 0));
+                   Build_branch (L 49) (L 51) (resistor (Nm 82 52) (r 7 0)) ] |}.
+Definition ex_tree_simplified : network CQ :=
+  {| zero := L 48;
+     branches := [ Build_branch (L 52) (L 48) (voltage_source (Nm 86 49) (r 5 0) (r 0 0));
+                   Build_branch (L 52) (L 48) (resistor (Nm 82 49) (r 2 0));
+                   Build_branch (L 48) (L 53) (impedance (Nm 90 50) (r 3 4));
+                   Build_branch (L 53) (L 48) (resistor (Nm 82 51) (r 1 0));
+                   Build_branch (L 48) (L 53) (current_source (Nm 73 49) (r 1 0) (r 0 0)) ] |}.
+(* with S2 on the exemption list: S2 survives as 3-0 and so does R4 as 0-3 *)
+Definition ex_tree_keep : network CQ :=
+  {| zero := L 48;
+     branches := [ Build_branch (L 52) (L 48) (voltage_source (Nm 86 49) (r 5 0) (r 0 0));
+                   Build_branch (L 52) (L 48) (resistor (Nm 82 49) (r 2 0));
+                   Build_branch (L 51) (L 48) (short_circuit (Nm 83 50));
+                   Build_branch (L 51) (L 53) (impedance (Nm 90 50) (r 3 4));
+                   Build_branch (L 53) (L 48) (resistor (Nm 82 51) (r 1 0));
+                   Build_branch (L 48) (L 53) (current_source (Nm 73 49) (r 1 0) (r 0 0));
+                   Build_branch (L 48) (L 51) (resistor (Nm 82 52) (r 7 0)) ] |}.
+
+Example C16_example_tree : remove_short_circuit_elements ex_tree [] = Ok ex_tree_simplified.
+Proof. reflexivity. Qed.
+Example C16_example_tree_keep : remove_short_circuit_elements ex_tree [short_circuit (Nm 83 50)] = Ok ex_tree_keep.
+Proof. reflexivity. Qed.
+Example C16_example_tree_wfb : wfb ex_tree = true. Proof. vm_compute. reflexivity. Qed.
+Example C16_example_tree_solvedb : solvedb ex_tree = true. Proof. vm_compute. reflexivity. Qed.
+Example C16_example_tree_simplified_wfb : wfb ex_tree_simplified = true. Proof. vm_compute. reflexivity. Qed.
+Example C16_example_tree_simplified_solvedb : solvedb ex_tree_simplified = true. Proof. vm_compute. reflexivity. Qed.
+Example C16_example_tree_wellposedb : wellposedb ex_tree = true. Proof. vm_compute. reflexivity. Qed.
+Example C16_example_tree_simplified_wellposedb : wellposedb ex_tree_simplified = true. Proof. vm_compute. reflexivity. Qed.
+Example C16_example_tree_keep_wellposedb : wellposedb ex_tree_keep = true. Proof. vm_compute. reflexivity. Qed.
+
+(* all hypotheses of C16_short_api_agree / C16_short_solution_agree / C16_wellposed_partial at once *)
+Example C16_example_tree_agree : exists s s',
+  solve_network ex_tree = Ok s /\ solve_network ex_tree_simplified = Ok s'
+  /\ wf ex_tree /\ WellPosed ex_tree /\ WellPosed ex_tree_simplified
+  /\ (forall l, In l (node_labels ex_tree_simplified) -> get_potential s l = get_potential s' l)
+  /\ (forall b', In b' (branches ex_tree_simplified) ->
+        get_voltage s (bid b') = get_voltage s' (bid b') /\ get_current s (bid b') = get_current s' (bid b')
+        /\ get_power s (bid b') = get_power s' (bid b')).
+Proof.
+  destruct (solvedb_ok CQ_ok ex_tree C16_example_tree_wfb C16_example_tree_solvedb) as [s [Hs _]].
+  destruct (solvedb_ok CQ_ok ex_tree_simplified C16_example_tree_simplified_wfb C16_example_tree_simplified_solvedb)
+    as [s' [Hs' _]].
+  destruct (wellposedb_ok CQ_ok ex_tree C16_example_tree_wellposedb) as [WF WP].
+  destruct (wellposedb_ok CQ_ok ex_tree_simplified C16_example_tree_simplified_wellposedb) as [_ WP'].
+  exists s, s'. split; [exact Hs|]. split; [exact Hs'|]. split; [exact WF|]. split; [exact WP|]. split; [exact WP'|].
+  exact (short_api_agree CQ CQ_ok ex_tree ex_tree_simplified [] s s' (proj2 (proj2 WF)) WP' C16_example_tree Hs Hs').
+Qed.
+Print Assumptions C16_example_tree_agree.
+
+(* open circuits: O1 parallel to R1, O2 parallel to the source; every node keeps a non-open branch *)
+Definition ex_open : network CQ :=
+  {| zero := L 48;
+     branches := [ Build_branch (L 49) (L 48) (voltage_source (Nm 86 49) (r 5 1) (r 0 0));
+                   Build_branch (L 49) (L 50) (open_circuit (Nm 79 49));
+                   Build_branch (L 49) (L 50) (resistor (Nm 82 49) (r 2 0));
+                   Build_branch (L 50) (L 48) (admittance (Nm 89 50) (r 1 (-1)));
+                   Build_branch (L 48) (L 49) (open_circuit (Nm 79 50)) ] |}.
+Definition ex_open_simplified : network CQ :=
+  {| zero := L 48;
+     branches := [ Build_branch (L 49) (L 48) (voltage_source (Nm 86 49) (r 5 1) (r 0 0));
+                   Build_branch (L 49) (L 50) (resistor (Nm 82 49) (r 2 0));
+                   Build_branch (L 50) (L 48) (admittance (Nm 89 50) (r 1 (-1))) ] |}.
+Example C16_example_open : remove_open_circuit_elements ex_open = Ok ex_open_simplified.
+Proof. reflexivity. Qed.
+Example C16_example_open_drop : drop_open ex_open = ex_open_simplified.
+Proof. reflexivity. Qed.
+Example C16_example_open_wellposedb : wellposedb ex_open = true. Proof. vm_compute. reflexivity. Qed.
+Example C16_example_open_simplified_wellposedb : wellposedb ex_open_simplified = true. Proof. vm_compute. reflexivity. Qed.
+Example C16_example_open_nodes_kept :
+  forallb (fun l => lmem l (node_labels (drop_open ex_open))) (node_labels ex_open) = true.
+Proof. vm_compute. reflexivity. Qed.
+
+(* the other operations on the same networks *)
+Example C16_example_switch_ground : exists n', switch_ground_node ex_tree_simplified (L 53) = Ok n' /\ wellposedb n' = true.
+Proof. eexists. split; [reflexivity|]. vm_compute. reflexivity. Qed.
+Example C16_example_remove_element : exists n', remove_element ex_tree_simplified (Nm 82 51) = Ok n' /\ wellposedb n' = true.
+Proof. eexists. split; [reflexivity|]. vm_compute. reflexivity. Qed.
+Example C16_example_remove_element_unknown : remove_element ex_tree_simplified (Nm 82 57) = Err EKeyError.
+Proof. reflexivity. Qed.
+(* passive network of the tree example: sources stripped, then opens and shorts removed; with V1 exempt *)
+Example C16_example_passive :
+  match passive_network ex_tree [] with
+  | Ok n' => map bid (branches n') = [Nm 90 50; Nm 82 51]   (* R1 hangs between the shorted source and the shorted tree *)
+  | Err _ => False
+  end.
+Proof. vm_compute. reflexivity. Qed.
+Example C16_example_passive_keep :
+  match passive_network ex_tree [voltage_source (Nm 86 49) (r 5 0) (r 0 0)] with
+  | Ok n' => map bid (branches n') = [Nm 86 49; Nm 82 49; Nm 90 50; Nm 82 51] /\ wellposedb n' = true
+  | Err _ => False
+  end.
+Proof. vm_compute. split; reflexivity. Qed.
